@@ -91,7 +91,7 @@ def work(hists, cfg, open_ids):
 def run(tier):
     cfg = tier_cfg(tier)
     run = core.Run(PROP, tier)
-    ex = explorer.Explorer(menus.core_menu)
+    ex = explorer.Explorer(menus.core_menu_q if tier == "quick" else menus.core_menu)
     states = ex.run(cfg["depth"])
     hists = [s.hist for s in states]
     st = ex.stats()
@@ -137,7 +137,7 @@ def run(tier):
     ]
     return run.finish(
         exhaustive=True,
-        rule=f"all pipelines reachable in <= {cfg['depth']} builder calls over the core menu"
+        rule=f"all pipelines reachable in <= {cfg['depth']} builder calls over the core menu" + (" (quick tier: the first call from a thinner one-per-shape selection of the menu, every later call from the full menu)" if tier == "quick" else "")
         + (f" plus <= {cfg['slice_depth']} calls over the SQL-translation slice" if cfg["slice_depth"] else "")
         + f" plus <= {cfg['chain_depth']} calls over the extend-chain slice (plain / windowed / ordered extends creating, reading and overwriting each other's columns)"
         + f", each on all multisets of <= {cfg['kd']} rows over the {len(cfg['d_rows'])}-row alphabet of d (and <= {cfg['ke']} rows over the {len(cfg['e_rows'])}-row alphabet of e when read); a case is one (pipeline, input) pair executed on Pandas and on SQLite",
